@@ -66,6 +66,10 @@ type (
 		RegisterActiveReceiver(sourceShardID history.ClusterShardID, receiver ActiveReceiver)
 		// UnregisterActiveReceiver removes an active receiver
 		UnregisterActiveReceiver(sourceShardID history.ClusterShardID)
+		// RegisterLocalReceiver atomically registers a local receiver's cancel function and the receiver itself
+		RegisterLocalReceiver(sourceShardID history.ClusterShardID, receiver ActiveReceiver, cancelFunc context.CancelFunc)
+		// UnregisterLocalReceiver removes the cancel function and the active receiver entry only if receiver is still the registered one
+		UnregisterLocalReceiver(sourceShardID history.ClusterShardID, receiver ActiveReceiver)
 		// GetActiveReceiver returns the active receiver for the given source shard
 		GetActiveReceiver(sourceShardID history.ClusterShardID) (ActiveReceiver, bool)
 		// TerminatePreviousLocalReceiver checks if there is a previous local receiver for this shard and terminates it if needed
@@ -1071,6 +1075,26 @@ func (sm *shardManagerImpl) UnregisterActiveReceiver(sourceShardID history.Clust
 	sm.activeReceiversMu.Lock()
 	defer sm.activeReceiversMu.Unlock()
 	delete(sm.activeReceivers, sourceShardID)
+}
+
+// RegisterLocalReceiver registers the cancel function and the receiver in one critical section, so that the cleanup of a
+// previous receiver for the same shard sees either none or both of them.
+func (sm *shardManagerImpl) RegisterLocalReceiver(sourceShardID history.ClusterShardID, receiver ActiveReceiver, cancelFunc context.CancelFunc) {
+	sm.activeReceiversMu.Lock()
+	defer sm.activeReceiversMu.Unlock()
+	sm.SetLocalReceiverCancelFunc(sourceShardID, cancelFunc)
+	sm.activeReceivers[sourceShardID] = receiver
+}
+
+// UnregisterLocalReceiver is the cleanup of a receiver that is going away: it removes the entries only if they are still
+// its own. A newer receiver for the same shard has already replaced them and must keep them.
+func (sm *shardManagerImpl) UnregisterLocalReceiver(sourceShardID history.ClusterShardID, receiver ActiveReceiver) {
+	sm.activeReceiversMu.Lock()
+	defer sm.activeReceiversMu.Unlock()
+	if current, ok := sm.activeReceivers[sourceShardID]; ok && current == receiver {
+		delete(sm.activeReceivers, sourceShardID)
+		sm.RemoveLocalReceiverCancelFunc(sourceShardID)
+	}
 }
 
 // GetActiveReceiver returns the active receiver for the given source shard
